@@ -139,7 +139,7 @@ OPTS = [dict(tts=t, nodal=nd, reds=rd, trim=tr, start=sa, stt=s)
         for s in ('0', '1/4') if not (rd == 'array' and t.startswith('scalar') and False)]
 
 
-@unit('C19', 'get_time_shift_motions', functions=[SF + 'get_time_shift_motions', SF + 'trim_to_length'], cases=OPTS, modes=('bounded',),
+@unit('C19', 'get_time_shift_motions', functions=[SF + 'get_time_shift_motions', SF + 'trim_to_length'], cases=OPTS, modes=('bounded',), opts=dict(histories=('prior', 'again')),
       sizes=dict(n=[3, 4]), thorough_sizes=dict(n=[2, 3, 4, 5, 6]))
 def time_shift_motions(V, tts, nodal, reds, trim, start, stt):
     st = {}
@@ -158,7 +158,7 @@ def time_shift_motions(V, tts, nodal, reds, trim, start, stt):
         out.unchanged('x', st['x'])
 
 
-@unit('C19', 'calc_surface_energy', functions=[SF + 'calc_surface_energy', SF + 'trim_to_length'], cases=OPTS, modes=('bounded',),
+@unit('C19', 'calc_surface_energy', functions=[SF + 'calc_surface_energy', SF + 'trim_to_length'], cases=OPTS, modes=('bounded',), opts=dict(histories=('prior', 'again')),
       sizes=dict(n=[3, 4]), thorough_sizes=dict(n=[2, 3, 4, 5, 6]), budget_ms=20000)
 def surface_energy(V, tts, nodal, reds, trim, start, stt):
     st = {}
@@ -180,7 +180,7 @@ def surface_energy(V, tts, nodal, reds, trim, start, stt):
 
 
 # --------------------------------------------------------------------------------------------- cumulative measure
-@unit('C19', 'calc_cum_abs_surface_energy', functions=[SF + 'calc_cum_abs_surface_energy'],
+@unit('C19', 'calc_cum_abs_surface_energy', functions=[SF + 'calc_cum_abs_surface_energy'], opts=dict(histories=('prior', 'again')),
       cases=[dict(tts=t, nodal=nd) for t in TT_SETS for nd in (True, False)], modes=('bounded',), sizes=dict(n=[3, 4]), budget_ms=20000)
 def cum_abs_energy(V, tts, nodal):
     st = {}
